@@ -3,6 +3,8 @@ import DicomModel.Lemmas.Header
 import DicomModel.Props.C03
 import DicomModel.Props.C04
 import DicomModel.Lemmas.NormCanon
+import DicomModel.Lemmas.NormKeepCanon
+import DicomModel.Lemmas.NormImplicit
 /-
 C01 — Data set write-then-read round trip in every writable transfer syntax.
 
@@ -669,13 +671,35 @@ theorem norm_value_stable (be : Bool) (vr : VR) (v : PValue) (hv : Norm.ValidFor
     paddedValue be vr (Norm.normValue be vr v) = paddedValue be vr v :=
   Norm.paddedValue_norm be vr v hv
 
-/-- NOT proved (stated for the record): the same round trip with the `NoChange` strategy for trees whose
-recorded lengths are consistent (`tree_rt_nochange` of DESIGN §6); for *canonical* trees it is
-`C02.rewrite_identity`. The correspondence run executes it on every generated tree with explicit lengths. -/
-def TreeRoundTripNoChange (Consistent : Syntax → Elems → Prop) : Prop :=
-  ∀ (ts : Syntax) (dict : Tag → Option VR) (t : Elems), Ref.dictOk ts dict = true → Norm.WfElems ts dict t →
-    Ref.sortedElems t = true → Consistent ts t →
-    ∃ bs t', writeDataset ts .noChange t = .ok bs ∧ readDataset ts dict bs = .ok t'
+/-- **Round trip with the `NoChange` strategy** (recorded sequence / item lengths written as they are), any
+nesting depth, all three uncompressed syntaxes: if the recorded lengths are consistent
+(`Norm.LenOkElems`: every defined length is the length of its content as encoded — what a reader records)
+the writer succeeds and reading back returns the normal form *with the same recorded lengths*
+(`Norm.keepElems`). Defined and undefined lengths may be mixed freely. -/
+theorem tree_rt_nochange (ts : Syntax) (dict : Tag → Option VR) (t : Elems)
+    (hd : Ref.dictOk ts dict = true) (hwf : Norm.WfElems ts dict t) (hlen : Norm.LenOkElems ts dict t)
+    (hsorted : Ref.sortedElems t = true) :
+    ∃ bs, writeDataset ts .noChange t = .ok bs ∧ readDataset ts dict bs = .ok (Norm.keepElems ts t) :=
+  Norm.write_read_keep ts dict t hd hwf hlen hsorted
+
+/-- the writer state machine cannot tell a well-formed tree from its normal form under *either* strategy
+(so stale recorded lengths under `NoChange` produce exactly the bytes the normal form with the same stale
+lengths would produce — the documented risk of that strategy, not an additional one) -/
+theorem write_any_strategy_norm (ts : Syntax) (dict : Tag → Option VR) (strat : Strategy) (t : Elems)
+    (hwf : Norm.WfElems ts dict t) :
+    writeDataset ts strat (Norm.keepElems ts t) = writeDataset ts strat t :=
+  Norm.write_keep ts dict strat t hwf
+
+/-- **Implicit VR LE with the dictionary as a parameter function**, including attributes the dictionary does
+not know (private / unknown tags, whatever VR they carry in memory): writing succeeds and reading back yields
+the normal form of `Norm.dictElems dict t` — every element under the VR the dictionary gives
+(`Ref.implicitVr`: OW for Pixel/Overlay Data, UN when unknown), unknown attributes with their value field as
+bytes. This is the documented normalisation "in Implicit VR the VR of a known attribute is the dictionary's". -/
+theorem tree_rt_implicit_dict (dict : Tag → Option VR) (t : Elems)
+    (hd : Ref.dictOk .implicitLE dict = true) (hwf : Norm.WfImpElems dict t) (hsorted : Ref.sortedElems t = true) :
+    ∃ bs, writeDataset .implicitLE .setUndefined t = .ok bs ∧
+      readDataset .implicitLE dict bs = .ok (Norm.normElems .implicitLE (Norm.dictElems dict t)) :=
+  Norm.write_read_implicit dict t hd hwf hsorted
 
 /-- non-vacuity / end-to-end on a concrete nested tree (sequence with two items, a nested sequence, an
 empty sequence, a pixel sequence with an odd and an empty fragment, text with padding, numbers):
